@@ -13,9 +13,17 @@ def worker_main(args):
     t0 = time.time()
     fatal = None
     try:
-        if args.replay:
+        if args.replay and not args.prefix:
             detail = json.load(open(args.replay))['detail']
+            ctx.replaying = True
             core.run_cases(ctx, mod, [detail['case']])
+        elif args.replay:
+            # the isolated case did not fail again: the failure depends on the cases judged before it in the same process
+            # (a cache, a counter, ...). Re-run the deterministic prefix of the original run and keep what the last case reports.
+            rec = json.load(open(args.replay))
+            ctx.stop_after = rec['ordinal']
+            mod.run(ctx)
+            ctx.violations = [v for v in ctx.violations if v['ordinal'] == rec['ordinal']]
         else:
             mod.run(ctx)
     except Exception:
@@ -23,7 +31,7 @@ def worker_main(args):
         fatal = traceback.format_exc()[-3000:]
     out = {'violations': ctx.violations, 'known_hits': ctx.known_hits, 'counts': ctx.counts,
            'samples': ctx.samples[:6], 'nontrivial': sorted(ctx.nontrivial), 'evaluations': ctx.evaluations,
-           'digests': ctx.digests, 'exhaustive': ctx.exhaustive, 'notes': ctx.notes, 'fatal': fatal,
+           'digests': ctx.digests, 'case_of': ctx.case_of, 'exhaustive': ctx.exhaustive, 'notes': ctx.notes, 'fatal': fatal,
            'harness_errors': getattr(ctx, 'harness_errors', [])[:5], 'lean_lines': ctx.lean.lines,
            'wall_s': round(time.time() - t0, 2), 'hashseed': ctx.hashseed}
     json.dump(out, open(args.out, 'w'))
@@ -38,6 +46,7 @@ def main():
     ap.add_argument('--workers', type=int, default=1)
     ap.add_argument('--out')
     ap.add_argument('--replay')
+    ap.add_argument('--prefix', action='store_true')
     args = ap.parse_args()
     if args.tier not in ('quick', 'thorough'):
         args.tier = 'quick'
@@ -54,30 +63,52 @@ def main():
     gate = leangate.gate(prop, thorough)
 
     nw = meta.get('workers', {}).get(args.tier, 2 if not thorough else 8)
-    if args.replay:
-        nw = 1
-    scratch = tempfile.mkdtemp(prefix='gamba-verif-')
-    procs = []
-    try:
-        for i in range(nw):
-            env = dict(os.environ)
-            env['PYTHONHASHSEED'] = str((core.SEED * 7919 + i * 104729 + 1) % 4294967295)
-            env['PYTHONPATH'] = os.path.join(core.REPO, 'src')
-            out = os.path.join(scratch, 'w%d.json' % i)
-            cmd = [sys.executable, os.path.abspath(__file__), '--property', prop, '--tier', args.tier, '--worker',
-                   '--index', str(i), '--workers', str(nw), '--out', out]
-            if args.replay:
-                cmd += ['--replay', args.replay]
-            procs.append((subprocess.Popen(cmd, env=env, cwd=core.VERIF), out))
-        results = []
-        for p, out in procs:
-            p.wait()
-            if p.returncode != 0 or not os.path.exists(out):
-                print('harness worker failed (rc=%s)' % p.returncode)
-                sys.exit(2)
-            results.append(json.load(open(out)))
-    finally:
-        shutil.rmtree(scratch, ignore_errors=True)
+    rec = json.load(open(args.replay)) if args.replay else None
+
+    def run_workers(specs):
+        """specs: list of (index, workers, hashseed, extra args, extra env)"""
+        scratch = tempfile.mkdtemp(prefix='gamba-verif-')
+        procs = []
+        try:
+            for (i, n, hs, extra, eenv) in specs:
+                env = dict(os.environ)
+                env.update(eenv)
+                env['PYTHONHASHSEED'] = str(hs)
+                env['PYTHONPATH'] = os.path.join(core.REPO, 'src')
+                out = os.path.join(scratch, 'w%d.json' % len(procs))
+                cmd = [sys.executable, os.path.abspath(__file__), '--property', prop, '--tier', eenv.get('VERIF_TIER', args.tier), '--worker',
+                       '--index', str(i), '--workers', str(n), '--out', out] + extra
+                procs.append((subprocess.Popen(cmd, env=env, cwd=core.VERIF), out))
+            res = []
+            for p, out in procs:
+                p.wait()
+                if p.returncode != 0 or not os.path.exists(out):
+                    print('harness worker failed (rc=%s)' % p.returncode)
+                    sys.exit(2)
+                res.append(json.load(open(out)))
+            return res
+        finally:
+            shutil.rmtree(scratch, ignore_errors=True)
+
+    def default_hs(i):
+        return (core.SEED * 7919 + i * 104729 + 1) % 4294967295
+
+    if rec is None:
+        results = run_workers([(i, nw, default_hs(i), [], {}) for i in range(nw)])
+    else:
+        # replay under the hash seed the violation was seen with: first the case alone, then (if that is silent and the record says
+        # where in the run it happened) the deterministic prefix of the original run up to that case
+        hs = rec.get('hashseed') if rec.get('hashseed') not in (None, '') else default_hs(0)
+        if rec.get('kind') == 'hash-seed-dependence' and rec['detail'].get('case') is not None:
+            # run the case under both hash seeds; the comparison below reports the disagreement again
+            results = run_workers([(0, 1, h, ['--replay', args.replay], {}) for h in rec['detail']['hashseeds']])
+        else:
+            results = run_workers([(0, 1, hs, ['--replay', args.replay], {})])
+        if not results[0]['violations'] and not results[0]['known_hits'] and rec.get('ordinal') and not os.environ.get('VERIF_REPLAY_ISOLATED_ONLY'):
+            print('the case alone does not fail; replaying the first %d cases of the original run (seed %s, tier %s)'
+                  % (rec['ordinal'], rec.get('seed'), rec.get('tier')))
+            results = run_workers([(rec.get('worker_index', 0), rec.get('n_workers', 1), hs, ['--replay', args.replay, '--prefix'],
+                                    {'VERIF_SEED': str(rec.get('seed', 0)), 'VERIF_TIER': rec.get('tier', 'quick')})])
 
     fatals = [r['fatal'] for r in results if r['fatal']]
     herrs = [e for r in results for e in r['harness_errors']]
@@ -103,8 +134,10 @@ def main():
     for r in results[1:]:
         for cid, d in r['digests'].items():
             if cid in base and base[cid] != d:
+                case = results[0].get('case_of', {}).get(cid) or r.get('case_of', {}).get(cid)
                 violations.append({'kind': 'hash-seed-dependence', 'no_input': False,
-                                   'detail': {'case_id': cid, 'hashseeds': [results[0]['hashseed'], r['hashseed']]},
+                                   'detail': {'case_id': cid, 'hashseeds': [results[0]['hashseed'], r['hashseed']], 'case': case,
+                                              'what': 'the canonical result of this case differs between two processes that differ only in PYTHONHASHSEED'},
                                    'hashseed': r['hashseed']})
                 break
     violations.sort(key=lambda v: v['no_input'])      # concrete failing inputs first
@@ -118,11 +151,13 @@ def main():
     for k, what in sorted(known.items()):
         print('KNOWN-FINDING: property=%s %s' % (prop, what))
 
-    os.makedirs(os.path.join(core.VERIF, 'replays'), exist_ok=True)
+    rdir = os.environ.get('VERIF_REPLAY_DIR', 'replays')
+    os.makedirs(os.path.join(core.VERIF, rdir), exist_ok=True)
     for i, v in enumerate(violations[:10]):
-        path = os.path.join('replays', '%s-%s-%d.json' % (prop, core.SEED, i))
+        path = os.path.join(rdir, '%s-%s-%d.json' % (prop, core.SEED, i))
         json.dump({'property': prop, 'kind': v['kind'], 'seed': core.SEED, 'hashseed': v.get('hashseed'),
-                   'tier': args.tier, 'detail': v['detail']}, open(os.path.join(core.VERIF, path), 'w'), indent=1,
+                   'tier': args.tier, 'ordinal': v.get('ordinal'), 'worker_index': v.get('worker_index'),
+                   'n_workers': v.get('n_workers'), 'no_failing_input_found': bool(v['no_input']), 'detail': v['detail']}, open(os.path.join(core.VERIF, path), 'w'), indent=1,
                   ensure_ascii=False)
         tail = ' no-failing-input-found' if v['no_input'] else ''
         print('VIOLATION property=%s replay=%s kind=%s%s' % (prop, path, v['kind'], tail))
